@@ -36,15 +36,10 @@ func Flight(raws []json.RawMessage) ([]interface{}, error) {
 		sample := ""
 		deadline := time.Now().Add(20 * time.Second)
 		for r := 0; r < c.Rounds && stuck == 0 && time.Now().Before(deadline); r++ {
-			var hc interface {
-				Get() (cache.Status, *cache.HTTPResponse)
-				Cacheable(*cache.HTTPResponse, int)
-				HitForPass(int)
-			}
+			// (no interface type here: the harness must keep compiling when a method gains a result)
+			hc := cache.NewHTTPCache()
 			if c.Store {
 				hc = cache.NewHTTPStoreCache([]byte(fmt.Sprintf("GET h /flight/%d/%d", i, r)), emptyStore{})
-			} else {
-				hc = cache.NewHTTPCache()
 			}
 			if st, _ := hc.Get(); st != cache.StatusFetching {
 				wrong++
